@@ -39,6 +39,26 @@ CHECKS = {
              text="insert;delete and embed;delete must restore bytes, denotations and outer markers of every host feature (and the restored location must survive its own text form); slice*;concat must restore bytes and, per feature, the set of residues with strands. Intermediate values are deep-copied so aliasing defects cannot interfere.",
              note="Trusted: harness model, rapid, Go.",
              design="§3 C10"),
+ "C16": dict(technique="exhaustive enumeration over all lengths against an independent formatter + LF/CRLF differential over enumerated single-byte block mutations",
+             level="exploration",
+             text="Every length in the range is laid out by gts and by the harness's own formatter and the two compared byte for byte; Len/Bytes/String consistency is checked before and after the lazy decode; full records of every length are scanned through the fast (LF) and slow (CRLF) paths; every single-byte mutation of boundary-length blocks is scanned both ways and verdict and residues compared.",
+             note="Trusted: harness formatter, Go. The two reader paths are reached only through the public scanner.",
+             design="§3 C16"),
+ "C17": dict(technique="exhaustive length sweep + property-based testing (rapid) + native go fuzzing (thorough); write->read round trip and layout oracle",
+             level="exploration",
+             text="Records are written with the FASTA writer, the layout is checked (70 columns, last line shorter, final newline) and the text is read back (LF and CRLF) and compared record by record; GenBank records and forward slices are converted and description/residues checked.",
+             note="Trusted: Go, rapid. Domain as the statement: single-line descriptions, residues without '>'.",
+             design="§3 C17"),
+ "C18": dict(technique="exhaustive table check against IUPAC base sets + exhaustive small strings + property-based testing (rapid) against naive search/match references",
+             level="exploration",
+             text="Complement/Transcribe are checked for all 256 bytes against base-set complementation; Match is checked for all letter pairs and for generated strings for soundness (set containment) and completeness (leftmost non-overlapping scan); Search against the naive scan of all overlapping occurrences.",
+             note="Trusted: harness IUPAC table (written from the definition), Go. Open known finding: query K compiled to [gtuy] (pinned by TestMatch).",
+             design="§3 C18"),
+ "C19": dict(technique="property-based testing (rapid) against a reference selector/boolean algebra + exhaustive order triples and insertion permutations",
+             level="exploration",
+             text="Selector strings are interpreted by the harness's own parser of the documented grammar (Go regexp as matcher) and compared with gts on every feature; combinators are compared with pointwise boolean algebra over the model's denotations; Filter is checked for exact sub-sequence and purity; sorted insertion for multiset, stability, sources first and non-decreasing order; LocationLess for strict-partial-order laws.",
+             note="Trusted: reference selector, Go regexp, rapid.",
+             design="§3 C19"),
 }
 PENDING_REASON = "check not built yet in this session (see DESIGN.md §3a build order); property-based testing applies and a check is planned"
 def main():
